@@ -3,7 +3,7 @@
 Spec: spec/JsonSession.tla (reader / channel / worker; every request class has
 a non-empty set of admissible answer kinds in every state; invariant
 OneResponsePerRequest, liveness EventuallyAnswered).  TLC enumerates every
-history over the 59-symbol request alphabet (every REPL command of src/commands.rs) up to a bound (and simulates
+history over the 65-symbol request alphabet (every REPL command of src/commands.rs) up to a bound (and simulates
 longer ones) and prints them; each is replayed into a real session, which must
 print exactly one answer per request, of an admissible kind, in order, and
 still answer `1 + 1` afterwards.  `:quit` is the spec's Quit action: the
@@ -77,6 +77,12 @@ REQ = {
     "unicmd": {"method": "run", "input": ":\u00e9t\u00e9 x"},
     "widecmd": {"method": "run", "input": ":type\u3000x"},
     "nbspsrc": {"method": "run", "input": "1\u00a0+ 1"},
+    "loadreq": {"method": "load", "input": "fun g2() { 1 }", "path": "/tmp/verif_c09.gdn", "offset": 0, "end_offset": 14},
+    "loadfar": {"method": "load", "input": "fun g2() { 2 }", "path": "/tmp/verif_c09.gdn", "offset": 0, "end_offset": 500},
+    "loadinv": {"method": "load", "input": "fun g2() { 3 }", "path": "/tmp/verif_c09.gdn", "offset": 9, "end_offset": 3},
+    "runspan": {"method": "run", "input": "1 + 1", "path": "/tmp/verif_c09.gdn", "offset": 2, "end_offset": 70},
+    "runmid": {"method": "run", "input": "\u00e9\u00e9 1 + 1", "path": "/tmp/verif_c09.gdn", "offset": 1, "end_offset": 3},
+    "evalfar": {"method": "eval_up_to", "path": "/tmp/verif_c09.gdn", "src": "let y = 2\ny + 1\n", "offset": 5000},
 }
 LIB = 'fun g() { throw("g") }\nfun f() { 7 }\n'
 # the stopped-state focus: composite stops + every evaluation command + abort
@@ -86,7 +92,7 @@ ADMISSIBLE = {"source": {"value", "error"}, "evalcmd": {"value", "error", "comma
               "cmd": {"command", "value", "error"}, "evalupto": {"value", "error"}, "malformed": {"malformed"}}
 CLASS = {}
 for k in REQ:
-    CLASS[k] = ("malformed" if k == "garbage" else "evalupto" if k == "evalupto" else "quit" if k == "quit" else
+    CLASS[k] = ("malformed" if k == "garbage" else "evalupto" if k in ("evalupto", "evalfar") else "quit" if k == "quit" else
                 "evalcmd" if k in ("resume", "skip", "replaceT", "replace5", "test", "replaceBad", "replaceCall") else
                 "cmd" if REQ[k]["input"].startswith(":") else "source")
 
@@ -96,10 +102,10 @@ ORDER = ["def", "let", "read", "callthrow", "badprint", "badif", "badwhile", "ba
          "evalupto", "garbage", "stopthrow", "stopnovar", "stoparg", "stoptest", "replaceBad", "replaceCall",
          "doc", "docnone", "help", "funs", "globals", "methods", "methodsnone", "namespace", "nsswitch", "namespaces", "parse", "parsenone",
          "search", "source", "types", "uptime", "version", "forgetcalls", "loadmissing", "loadfile", "trace", "quit",
-         "nbspcmd", "unicmd", "widecmd", "nbspsrc"]
+         "nbspcmd", "unicmd", "widecmd", "nbspsrc", "loadreq", "loadfar", "loadinv", "runspan", "runmid", "evalfar"]
 assert list(REQ) == ORDER, "REQ and ORDER (= Alphabet of spec/JsonSession.tla) must list the same symbols in the same order"
 # the symbols whose effect on later requests is more than an answer: every length-3 history over CORE is played
-CORE = ORDER[:33] + ["nsswitch", "loadfile", "trace", "quit", "nbspcmd"]
+CORE = ORDER[:33] + ["nsswitch", "loadfile", "trace", "quit", "nbspcmd", "loadreq", "loadfar"]
 
 
 def histories(maxlen, simulate=None, seed=0, focus=False, allowed=None):
@@ -218,7 +224,7 @@ def run(tier, seed):
     vacuity(quits > 20, "too few histories contain :quit")
     ck.assumptions += ["`interrupt` requests are answered by the reader thread out of band and are not in the alphabet (C08 covers them)",
                        "the admissible answer kinds are deliberately loose: the property is one answer per request, in order, and survival"]
-    return ck.finish(rule="all histories over the 59-symbol alphabet up to the exhaustive bound plus TLC-simulated longer ones; non-trivial = histories that issue :resume/:skip/:replace/:test after a failed evaluation",
+    return ck.finish(rule="all histories over the 65-symbol alphabet up to the exhaustive bound plus TLC-simulated longer ones; non-trivial = histories that issue :resume/:skip/:replace/:test after a failed evaluation",
                      exhaustive=False)
 
 
